@@ -1,3 +1,3 @@
-CLAIMED = {"C10", "C15"}
+CLAIMED = {f"C{i:02d}" for i in range(1, 21)}
 NOT_APPLICABLE = {}
 TECHNIQUE = {}
